@@ -142,7 +142,7 @@ Definition ex_test (t : state) : Qc := t "x" * t "x" + t "y".
 Example C17_catexpand_nonvacuous :
   Qc_eqb (E (exec_stmt no_law (SAssign "x" (RChoice ex_alts)) ex_state) ex_test)
          (E (exec_block no_law (cat_expand "x" "_c0" ex_alts) ex_state) ex_test) = true
-  /\ Qc_eqb (E (exec_stmt no_law (SAssign "x" (RChoice ex_alts)) ex_state) ex_test) (mkq 83 4) = true.
+  /\ Qc_eqb (E (exec_stmt no_law (SAssign "x" (RChoice ex_alts)) ex_state) ex_test) (mkq 45 2) = true.
 Proof. vm_compute. split; reflexivity. Qed.
 
 (* the freshness hypothesis is needed: with the category variable stored in x itself the
@@ -183,7 +183,7 @@ Proof. vm_compute. repeat split; reflexivity. Qed.
 (* the side conditions of the theorem hold for this program (so the theorem applies to it) *)
 Example C17_cond2arithm_side_nonvacuous : c2a_side no_law ex_T ["_u0"] ex_fp.
 Proof.
-  unfold c2a_side. repeat split.
+  unfold c2a_side. split; [|split; [|split]].
   - intros u [<-|[]]. reflexivity.
   - intros g Hg. cbn in Hg. unfold no_touch.
     repeat (destruct Hg as [<-|Hg]); try destruct Hg; cbn;
